@@ -1,4 +1,5 @@
 import ObiVerif.Model.PcrAnnot
+import ObiVerif.Model.PcrSeqBuf
 import ObiVerif.Lemmas.Pcr
 import ObiVerif.Lemmas.PcrCircular
 import ObiVerif.Lemmas.PcrFrag
@@ -167,6 +168,56 @@ theorem block_unfit (isFwd : Bool) (D C : Pattern) (hD : POk D) (hC : POk C) (wl
       rcases hu with hu | hu <;> omega
   have hl := lengthOk_nonpos o _ hlen
   simp [pairStep, hl] at hstep
+
+/-! ## the recycled C sequence buffer -/
+
+/-- what `EncodeSequence` writes is the `seqData` of the matcher model -/
+theorem written_eq_seqData (seq : Bytes) (circ : Bool) :
+    seq.map encodeByte ++ (seq.map encodeByte).take (if circ then min seq.length Gen.apatMaxPatLen else 0) = seqData seq circ := by
+  unfold seqData
+  cases circ
+  · simp
+  · simp only [if_true]
+    congr 1
+    by_cases h : seq.length ≤ Gen.apatMaxPatLen
+    · rw [Nat.min_eq_left h, List.take_of_length_le (by simp), List.take_of_length_le (by simpa using h)]
+    · rw [Nat.min_eq_right (by omega)]
+
+/-- the structure `new_apatseq` returns: lengths, and the first `seqlen + circular` codes of the buffer are the `seqData` of
+the current template — whatever structure was recycled -/
+theorem newApatSeq_valid (out : Option CSeq) (seq : Bytes) (circ : Bool) :
+    (newApatSeq out seq circ).seqlen = seq.length ∧
+    (newApatSeq out seq circ).seqlen + (newApatSeq out seq circ).circular = (seqData seq circ).length ∧
+    ∃ tail, (newApatSeq out seq circ).data = seqData seq circ ++ tail := by
+  have hw := written_eq_seqData seq circ
+  refine ⟨rfl, ?_, ?_⟩
+  · rw [← hw]
+    simp only [newApatSeq, List.length_append, List.length_map, List.length_take]
+    cases circ <;> simp only [if_true, Bool.false_eq_true, if_false] <;> omega
+  · unfold newApatSeq
+    simp only []
+    rw [hw]
+    cases out with
+    | none => exact ⟨[], by simp⟩
+    | some o =>
+      simp only []
+      split
+      · exact ⟨[], by simp⟩
+      · exact ⟨_, rfl⟩
+
+/-- **the recycled buffer does not leak**: what the automata scan of the structure `new_apatseq` returns
+(`data[begin .. min(begin + length, seqlen + circular))`) is what they scan of the `seqData` of the current template, for
+every recycled structure `out` — so that `FindAllIndex` on a recycled `ApatSequence` is `findAllIndex` of the model, and
+`_PCRSlice` a `map` over the templates -/
+theorem windowC_newApatSeq (out : Option CSeq) (seq : Bytes) (circ : Bool) (b l : Nat) :
+    windowC (newApatSeq out seq circ) b l = window (seqData seq circ) b l := by
+  obtain ⟨_, h2, tail, h3⟩ := newApatSeq_valid out seq circ
+  unfold windowC window
+  rw [h2, h3]
+  by_cases hb : b ≤ (seqData seq circ).length
+  · rw [List.drop_append_of_le_length hb, List.take_append_of_le_length (by simp only [List.length_drop]; omega)]
+  · have e : min (b + l) (seqData seq circ).length - b = 0 := by omega
+    rw [e, List.take_zero, List.take_zero]
 
 /-! ## fragments: when exactly a piece end clips a flank -/
 
